@@ -125,6 +125,31 @@ def run(chk, tier):
     for feats in configs_for(tier):
         prog = mir.Program(facts.load_mir(feats))
         cfg = prog.config
+        check_builtins(chk, prog, cfg, feats)
+        sibling(chk, prog, cfg)
+        if tier == "thorough":
+            encode_siblings(chk, prog, cfg)
+        # a description is only reachable under its own id if identities are coherent
+        ci.check_identities(chk, prog, cfg)
+        # "from the registry description alone": the description reaches the registry unchanged (C02's homomorphism, C01's insertion rule)
+        c02.check_config(chk, prog, cfg)
+        cr.check_register_type(chk, prog, cfg, rule="R1.2")
+        cr.check_from_registry(chk, prog, cfg, rule="R1.4")
+    chk.rule("R4.5", "every built-in type the property names has type info at all: witness programs instantiate TypeInfo for the inventory "
+             "(tuples up to arity 20, arrays, NonZero*, collections, pointers and references to unsized pointees) and must type-check")
+    from ..lib import witness
+    nw = witness.record(chk, "C04", tier)
+    chk.floor("R4.5", nw, 2, "C04 witness programs")
+    chk.trusted += ["rustc front end / MIR", "parity-scale-codec leaf encodings follow the SCALE specification",
+                    "the builder API is lossless (decided separately by C17)", "rustc's verdict on the witness programs"]
+    chk.assumptions += ["arrays shorter than 2^32 elements"]
+
+
+def check_builtins(chk, prog, cfg, feats=()):
+    chk.rule("R4.1", "every built-in TypeInfo impl has the shape class of its SCALE encoding (table in DESIGN.md C04): "
+             "definition kind, member count/order/types, variant indices, array length = N as u32, forwarding target")
+    chk.rule("R4.2", "every TypeInfo impl in the crate has a table row (an unclassified built-in is reported)")
+    if True:
         ev = shapes.ShapeEval(prog)
         imps = prog.impls_of(TI)
         chk.count("typeinfo_impls[%s]" % cfg, len(imps))
@@ -149,18 +174,6 @@ def run(chk, tier):
         want = 68 if "bit-vec" in feats else 65
         chk.floor("R4.1", n, want, "TypeInfo impls in config %s: 12 primitives + array + 21 tuples + 10 NonZero + 21 others%s"
                   % (cfg, " + 3 bitvec" if "bit-vec" in feats else ""))
-        sibling(chk, prog, cfg)
-        if tier == "thorough":
-            encode_siblings(chk, prog, cfg)
-        # a description is only reachable under its own id if identities are coherent
-        ci.check_identities(chk, prog, cfg)
-        # "from the registry description alone": the description reaches the registry unchanged (C02's homomorphism, C01's insertion rule)
-        c02.check_config(chk, prog, cfg)
-        cr.check_register_type(chk, prog, cfg, rule="R1.2")
-        cr.check_from_registry(chk, prog, cfg, rule="R1.4")
-    chk.trusted += ["rustc front end / MIR", "parity-scale-codec leaf encodings follow the SCALE specification",
-                    "the builder API is lossless (decided separately by C17)"]
-    chk.assumptions += ["arrays shorter than 2^32 elements"]
 
 
 WRAPPER_EXPECT = {
